@@ -205,7 +205,7 @@ class Specifier(BaseSpecifier):
 
     _regex = re.compile(
         r"^\s*" + _operator_regex_str + _version_regex_str + r"\s*$",
-        re.VERBOSE | re.IGNORECASE,
+        re.VERBOSE | re.IGNORECASE | re.ASCII,
     )
 
     _operators = {
